@@ -96,6 +96,7 @@ type civil struct {
 	Y, Mo, D, H, Mi, S, Wd int64
 	Nsec                   int64
 	Days                   int64
+	Abbr                   string // zone abbreviation (from Go's zone data, the trusted base)
 }
 
 // civilOf: fields of an instant read with a given UTC offset.
@@ -177,6 +178,13 @@ func intSrc(v int64) string {
 }
 
 func locOf(name string) *time.Location {
+	if strings.HasPrefix(name, "fixed:") {
+		// fixed:<name>:<offset seconds> - a zone fabricated by the host (as time.Parse does for unknown abbreviations)
+		parts := strings.Split(name, ":")
+		off := 0
+		fmt.Sscan(parts[2], &off)
+		return time.FixedZone(parts[1], off)
+	}
 	switch name {
 	case "", "UTC":
 		return time.UTC
@@ -195,6 +203,12 @@ func refFormat(c civil, offset int64, layout string) string {
 	var sb strings.Builder
 	for i := 0; i < len(layout); {
 		switch {
+		case strings.HasPrefix(layout[i:], ".000"):
+			fmt.Fprintf(&sb, ".%03d", c.Nsec/1000000)
+			i += 4
+		case strings.HasPrefix(layout[i:], "MST"):
+			sb.WriteString(c.Abbr)
+			i += 3
 		case strings.HasPrefix(layout[i:], "2006"):
 			fmt.Fprintf(&sb, "%04d", c.Y)
 			i += 4
@@ -367,11 +381,41 @@ var c19Check = core.Mon(c19, "dates", func(w *core.W, c *DateCase) {
 			bad("timeformat-error", "a string", fmt.Sprint(pv, err), src)
 			return
 		}
-		_, off := t.Zone()
-		want := refFormat(civilOf(t.Unix(), 0, int64(off)), int64(off), c.Str)
+		abbr, off := t.Zone()
+		cv := civilOf(t.Unix(), int64(t.Nanosecond()), int64(off))
+		cv.Abbr = abbr
+		want := refFormat(cv, int64(off), c.Str)
 		w.Nontrivial(key)
 		if v != want {
-			bad("timeformat", want, show(v), fmt.Sprintf("timeFormat(%s, %q)", t.Format(time.RFC3339), c.Str))
+			bad("timeformat", want, show(v), fmt.Sprintf("timeFormat(%s, %q)", t.Format(time.RFC3339Nano), c.Str))
+			return
+		}
+		// consecutive renderings: the same second with other nanoseconds, and the same instant in another zone
+		t2 := t.Add(time.Duration(1+c.Nsec%7) * 37 * time.Millisecond)
+		if t2.Unix() != t.Unix() {
+			t2 = t.Add(-time.Duration(t.Nanosecond()))
+		}
+		t3 := t.In(locOf([]string{"UTC", "Europe/London", "fixed:GMT:0", "Asia/Shanghai"}[c.Unix&3]))
+		data["t2"], data["t3"] = t2, t3
+		v2, err2, _, pv2 := resolveIn(data, "[timeFormat(t, str), timeFormat(t2, str), timeFormat(t3, str), timeFormat(t, str)]")
+		w.Eval(1)
+		arr, ok := v2.([]interface{})
+		if err2 != nil || !ok || len(arr) != 4 {
+			bad("timeformat-error", "four strings", fmt.Sprint(pv2, err2, show(v2)), src)
+			return
+		}
+		a2, o2 := t2.Zone()
+		c2 := civilOf(t2.Unix(), int64(t2.Nanosecond()), int64(o2))
+		c2.Abbr = a2
+		a3, o3 := t3.Zone()
+		c3 := civilOf(t3.Unix(), int64(t3.Nanosecond()), int64(o3))
+		c3.Abbr = a3
+		wants := []string{want, refFormat(c2, int64(o2), c.Str), refFormat(c3, int64(o3), c.Str), want}
+		for i := range wants {
+			if arr[i] != wants[i] {
+				bad("timeformat-consecutive", wants, show(v2), fmt.Sprintf("consecutive timeFormat calls with layout %q on %s, %s, %s", c.Str, t.Format(time.RFC3339Nano), t2.Format(time.RFC3339Nano), t3.Format(time.RFC3339Nano)))
+				return
+			}
 		}
 	case "now":
 		t0 := time.Now()
@@ -472,7 +516,7 @@ func transitions(loc *time.Location) []int64 {
 	return out
 }
 
-var c19Layouts = []string{"2006-01-02", "2006-01-02 15:04:05", "15:04", "02/01/2006", "2006-01-02T15:04:05-0700", "20060102150405", "05 04 15", "-0700 2006", "x", "", "2006年01月02日"}
+var c19Layouts = []string{"15:04:05.000", "2006-01-02 15:04:05.000 MST", "15:04 MST", "2006-01-02", "2006-01-02 15:04:05", "15:04", "02/01/2006", "2006-01-02T15:04:05-0700", "20060102150405", "05 04 15", "-0700 2006", "x", "", "2006年01月02日"}
 
 func init() { c19.Run = runC19 }
 
@@ -492,7 +536,7 @@ func runC19(w *core.W) {
 		w.Note("TZ=" + tz + " but time.Local is " + time.Local.String())
 	}
 	trans := transitions(time.Local)
-	zonesForData := []string{"UTC", "Local", "Asia/Shanghai", "America/New_York", "Australia/Lord_Howe", "Asia/Kathmandu"}
+	zonesForData := []string{"UTC", "Local", "Asia/Shanghai", "America/New_York", "Australia/Lord_Howe", "Asia/Kathmandu", "fixed:EST:0", "fixed:Office/Basement:3600", "fixed:Europe/London:7200", "fixed:UTC:-3600"}
 	// date(y, m, d): systematic months/days for a few years, then random, then around transitions of the local zone
 	for _, y := range []int64{1, 4, 100, 400, 1582, 1899, 1900, 1970, 1999, 2000, 2024, 2038, 2100, 2262, 2263, 9999} {
 		for m := int64(-14); m <= 26; m++ {
@@ -534,7 +578,7 @@ func runC19(w *core.W) {
 			run(&DateCase{Fn: "addDate", Unix: u, Nsec: nsec, Zone: "Local", Args: []int64{0, r.Int63n(25) - 12, r.Int63n(63) - 31}})
 		}
 		if i%5 == 0 {
-			names := []string{"UTC", "Asia/Shanghai", "America/New_York", "Europe/London", "Asia/Kolkata", "Pacific/Apia", "No/Such_Zone", "???", "Mars/Olympus_Mons", "Local", "Asia/Tehran", "Australia/Lord_Howe"}
+			names := []string{"UTC", "Asia/Shanghai", "America/New_York", "Europe/London", "Asia/Kolkata", "Pacific/Apia", "No/Such_Zone", "???", "Mars/Olympus_Mons", "Local", "Asia/Tehran", "Australia/Lord_Howe", "EST", "Office/Basement", "Europe/London", "UTC"}
 			run(&DateCase{Fn: "useTimezone", Unix: u, Nsec: nsec, Zone: zone, Str: names[r.Intn(len(names))]})
 			run(&DateCase{Fn: "timeFormat", Unix: u, Nsec: nsec, Zone: zone, Str: c19Layouts[r.Intn(len(c19Layouts))]})
 		}
